@@ -233,7 +233,7 @@ class OSolver(_S):
         for x in (list(what) if isinstance(what, (list, tuple, set)) else [what]):
             box = self.variables if isinstance(x, OVar) else self.constraints
             if not isinstance(x, (OVar, OCons)):
-                raise Unsupported(f"adding {type(x).__name__} to a problem")
+                raise ValueError(f"optlang refuses to add a {type(x).__name__}")  # eager refusal of a wrong kind of object
             if x.name in box:
                 raise ValueError(f"ContainerAlreadyContains: {x.name}")
             if isinstance(x, OCons):
@@ -512,7 +512,7 @@ class World:
             for m in mods:
                 stubs[f"{m}.{name}"] = ctor(name)
         for m in ("cobra.core.dictlist", "cobra.core", "cobra"):
-            stubs[f"{m}.DictList"] = lambda it_, ev, c, a, k: DL(*a)
+            stubs[f"{m}.DictList"] = self._make_dictlist
         for m in ("cobra.core.gene", "cobra.core", "cobra"):
             stubs[f"{m}.GPR"] = lambda it_, ev, c, a, k: RuleS("")
             stubs[f"{m}.GPR.from_string"] = lambda it_, ev, c, a, k: RuleS.from_string(*a)
@@ -568,6 +568,13 @@ class World:
         if isinstance(v, bool) and "bool" not in names and any(n in ("int", "float", "Number", "Real") for n in names):
             return True
         return isinstance(v, types) if types else False
+
+    @staticmethod
+    def _make_dictlist(it_, ev, c, a, k):
+        try:
+            return DL(*a)
+        except ValueError:
+            raise EvalRaise("ValueError", c)   # a duplicate identifier
 
     def _copy(self, x, deep: bool, memo: dict):
         """copy.copy / copy.deepcopy with Python's protocol: __copy__ / __deepcopy__ of the real class if it has one,
@@ -668,8 +675,13 @@ class World:
         m.add_reactions([r1, r2, ex, tr])
         m.objective = r2
         grp = self.new("Group", "grp1", members=[r1, m.genes.get_by_id("g2")])
-        m.add_groups([grp])
-        h.update(R1=r1, R2=r2, EX=ex, TR=tr, grp=grp)
+        # a metabolite that carries the identifier of a reaction (the lists are separate name spaces) and is the only
+        # member of a group: what is done to the reaction EX_a must not reach it
+        twin = self.new("Metabolite", "EX_a", compartment="e")
+        m.add_metabolites([twin])
+        grp2 = self.new("Group", "grp2", members=[twin])
+        m.add_groups([grp, grp2])
+        h.update(R1=r1, R2=r2, EX=ex, TR=tr, grp=grp, grp2=grp2)
         return m, h
 
 
@@ -852,6 +864,18 @@ def _dunder(w, o, name, *a):
     return w.it.call(type(o)._methods[name], list(a), {}, selfobj=o)
 
 
+def _fn(w, mod, name, *a, **k):
+    return w.it.call(w.prog.func(mod, name), list(a), dict(k))
+
+
+def _ko_single(w, m):
+    """A single identifier in place of a list: exactly that gene is knocked out."""
+    _fn(w, "cobra.manipulation.delete", "knock_out_model_genes", m, "g2")
+    flags = {object.__getattribute__(g, "__dict__").get("_id"): object.__getattribute__(g, "__dict__").get("_functional") for g in m.genes}
+    if flags.get("g2") is not False or any(v is False for k_, v in flags.items() if k_ != "g2"):
+        raise EvalRaise("AssertionError: knock_out_model_genes(model, 'g2') switched off " + str(sorted(k_ for k_, v in flags.items() if v is False)))
+
+
 def _new_rxn(w, m, h):
     d = w.new("Metabolite", "d_c", compartment="c")
     r = w.new("Reaction", "R3", lower_bound=-5.0, upper_bound=8.0)
@@ -899,6 +923,17 @@ OPS: Dict[str, Tuple[str, Callable]] = {
     "add_boundary exchange": ("model.add_boundary(a_e, type='exchange', reaction_id='EX_a2')", lambda w, m, h: m.add_boundary(h["mets"]["a_e"], type="exchange", reaction_id="EX_a2")),
     "gene knock_out": ("model.genes.g2.knock_out()", lambda w, m, h: m.genes.get_by_id("g2").knock_out()),
     "add_cons_vars": ("model.add_cons_vars([extra_v, extra_c])", _add_cons_vars),
+    "repair": ("model.repair()", lambda w, m, h: m.repair()),
+    "knock_out_model_genes": ("knock_out_model_genes(model, ['g2', 'g3'])", lambda w, m, h: _fn(w, "cobra.manipulation.delete", "knock_out_model_genes", m, ["g2", "g3"])),
+    "knock_out_model_genes single id": ("knock_out_model_genes(model, 'g2')", lambda w, m, h: _ko_single(w, m)),
+}
+# operations that raise inside a block (after an earlier change of the block): the block ends by that exception, and
+# leaving it must still restore everything without raising itself
+RAISING: Dict[str, Tuple[str, Callable]] = {
+    "a reaction handed to add_cons_vars": ("model.add_cons_vars([R1])  # a reaction instead of its variable: refused by the solver", lambda w, m, h: m.add_cons_vars([h["R1"]])),
+    "bounds the wrong way round": ("R2.bounds = (9, 1)", lambda w, m, h: _set(h["R2"], "bounds", (9.0, 1.0))),
+    "unknown metabolite id": ("R1.add_metabolites({c_c: 1, 'nope': 2})", lambda w, m, h: h["R1"].add_metabolites({h["mets"]["c_c"]: 1.0, "nope": 2.0})),
+    "duplicate reaction": ("model.add_reactions([a second reaction called R2])", lambda w, m, h: m.add_reactions([w.new("Reaction", "R9"), w.new("Reaction", "R9")])),
 }
 # operations that are refused: the model (and the solver) must be as consistent afterwards as before
 REFUSED: Dict[str, Tuple[str, Callable]] = {
@@ -911,7 +946,7 @@ REFUSED: Dict[str, Tuple[str, Callable]] = {
     "metabolite renamed to a taken name": ("b_c.id = 'a_c'", lambda w, m, h: _set(h["mets"]["b_c"], "id", "a_c")),
     "foreign objective reaction": ("model.objective = {a reaction of no model: 1}", lambda w, m, h: _set(m, "objective", {w.new("Reaction", "FOREIGN"): 1.0})),
 }
-CORE = ["bounds", "knock_out", "add new metabolite", "cancel metabolite", "reverse", "rule with a new gene", "objective reaction", "direction", "add_reactions", "remove_reactions", "remove with orphans",
+CORE = ["repair", "bounds", "knock_out", "add new metabolite", "cancel metabolite", "reverse", "rule with a new gene", "objective reaction", "direction", "add_reactions", "remove_reactions", "remove with orphans",
         "remove_metabolites destructive", "gene knock_out", "add_cons_vars"]
 # what an operation takes out of the model / which objects an operation edits directly: a pair that edits an object
 # after it was removed in the same block is outside the property (the object is not the model's any more)
@@ -947,8 +982,10 @@ def _scenario(prog, report: ReplayReport, label: str, steps: List[Tuple[str, Cal
                 _dunder(w, m, "__enter__")
             try:
                 op(w, m, h)
-            except EvalRaise:
+            except EvalRaise as exc:
                 report.raised += 1
+                if len(steps) == 1 and not getattr(op, "_may_raise", False):
+                    report.restore.append(f"`{what}` raises {exc.exc_type} on the toy model ({label})")
                 break  # the block ends by this exception
             x02, x01 = split_invariants(m, USER_VARS, USER_CONS)
             for f in x02[:2]:
@@ -1028,6 +1065,9 @@ def run_replay(prog) -> ReplayReport:
         _scenario(prog, rep, f"`{OPS[a][0]}`, then in an inner block `{OPS[b][0]}`", [OPS[a], OPS[b]], nest_at=1)
     for steps in (["bounds", "lower_bound", "negative bounds"], ["remove_reactions", "remove_metabolites", "add_metabolites", "direction"], ["scale", "reverse", "subtract", "objective coefficient"]):
         _scenario(prog, rep, " then ".join(f"`{OPS[s][0]}`" for s in steps), [OPS[s] for s in steps])
+    for first in ("bounds", "remove_reactions", "objective reaction", "add_reactions"):
+        for name, (what, op) in RAISING.items():
+            _scenario(prog, rep, f"`{OPS[first][0]}` then `{what}`, which raises", [OPS[first], (what, op)])
     # refused operations: no context; the model must be consistent afterwards (C01: "including operations that raise")
     for name, (what, op) in REFUSED.items():
         w, m, h = _fresh(prog)
@@ -1064,3 +1104,80 @@ def check_replay(ctx, rule: str, part: str = "restore") -> None:
     else:
         ctx.ok(rule, fn, f"replay ({part})", f"{rep.scenarios} scenarios ({len(OPS)} reversible operations alone, in a block ended by an exception and in a nested block; {len(CORE) * (len(CORE) - 1)} ordered pairs; longer scripts; {len(REFUSED)} refused operations), "
                                              f"{rep.raised} of them ending by an exception of the evaluated code: {text}")
+
+
+# ------------------------------------------------------------------------------------------------ knock-outs (C07)
+def check_knockouts(ctx, rule: str) -> None:
+    """Gene knock-outs on the stand-in model by the real methods (Gene.knock_out, Reaction.functional, the bounds
+    setter, knock_out_model_genes): after every step a reaction has both bounds at zero iff its rule is false with the
+    genes knocked out so far (a reaction without a rule is never touched), every other reaction keeps its bounds -
+    in the model and in the solver stand-in -, the knocked-out genes report non-functional, reaction.functional agrees
+    with the rule; leaving the context gives everything back. Orders, one at a time and together."""
+    prog = ctx.prog
+    fn = prog.func("cobra.core.gene", "Gene.knock_out")
+    problems: List[str] = []
+    n = 0
+    D = lambda o: object.__getattribute__(o, "__dict__")  # noqa: E731
+    orders = [["g1"], ["g2"], ["g3"], ["g2", "g3"], ["g3", "g2"], ["g1", "g3"], ["g3", "g2", "g1"]]
+    for how in ("one at a time", "knock_out_model_genes with identifiers", "knock_out_model_genes with gene objects", "knock_out_model_genes with a single identifier in place of a list"):
+        for order in orders:
+            if how.endswith("in place of a list") and len(order) != 1:
+                continue
+            n += 1
+            w, m, h = _fresh(prog)
+            before = snapshot(m, _skip_attrs(prog))
+            start = {D(r)["_id"]: (D(r)["_lower_bound"], D(r)["_upper_bound"]) for r in m.reactions}
+            what = f"knocking out {order} ({how})"
+            try:
+                _dunder(w, m, "__enter__")
+                steps = [[g] for g in order] if how == "one at a time" else [order]
+                done: List[str] = []
+                for grp in steps:
+                    if how == "one at a time":
+                        m.genes.get_by_id(grp[0]).knock_out()
+                    elif how.endswith("identifiers"):
+                        _fn(w, "cobra.manipulation.delete", "knock_out_model_genes", m, list(grp))
+                    elif how.endswith("in place of a list"):
+                        _fn(w, "cobra.manipulation.delete", "knock_out_model_genes", m, grp[0])
+                    else:
+                        _fn(w, "cobra.manipulation.delete", "knock_out_model_genes", m, [m.genes.get_by_id(g) for g in grp])
+                    done += grp
+                    for r in m.reactions:
+                        d = D(r)
+                        rule_ = d.get("_gpr")
+                        alive = rule_.eval(set(done)) if isinstance(rule_, RuleS) else True
+                        want = start[d["_id"]] if alive else (0, 0)
+                        got = (d["_lower_bound"], d["_upper_bound"])
+                        if tuple(map(float, got)) != tuple(map(float, want)):
+                            problems.append(f"{what}: after {done} the reaction {d['_id']} (rule `{getattr(rule_, 'text', '')}`) has bounds {got}, expected {want}")
+                        if bool(r.functional) != bool(alive):
+                            problems.append(f"{what}: after {done} reaction.functional of {d['_id']} is {r.functional}, its rule evaluates to {alive}")
+                    flags = {D(g)["_id"]: D(g).get("_functional") for g in m.genes}
+                    if any((flags[g] is not False) for g in done) or any(v is False for g, v in flags.items() if g not in done):
+                        problems.append(f"{what}: after {done} the genes report functional = {flags}")
+                    _, x01 = split_invariants(m)
+                    problems += [f"{what}: {f}" for f in x01[:1]]
+                _dunder(w, m, "__exit__", None, None, None)
+            except EvalRaise as exc:
+                problems.append(f"{what} raises {exc.exc_type}")
+                continue
+            except Unknown as exc:
+                raise AnalysisError(f"C07.replay: {what} cannot be evaluated: {exc}")
+            d_ = diff(before, snapshot(m, _skip_attrs(prog)))
+            if d_:
+                problems.append(f"{what}: after the block {d_[0]}")
+    # Reaction.knock_out touches its own bounds only
+    w, m, h = _fresh(prog)
+    before = snapshot(m, _skip_attrs(prog))
+    try:
+        h["R1"].knock_out()
+    except (EvalRaise, Unknown) as exc:
+        raise AnalysisError(f"C07.replay: Reaction.knock_out cannot be evaluated: {exc}")
+    changed = diff(before, snapshot(m, _skip_attrs(prog)))
+    other = [c for c in changed if not c.startswith(("Reaction:R1._lower_bound", "Reaction:R1._upper_bound", "var R1"))]
+    if other or D(h["R1"])["_lower_bound"] != 0 or D(h["R1"])["_upper_bound"] != 0:
+        problems.append(f"R1.knock_out(): {other[0] if other else 'the bounds of R1 are not (0, 0)'}")
+    if problems:
+        ctx.bad(rule, fn, "knock-outs (replay)", "; ".join(list(dict.fromkeys(problems))[:2]))
+    else:
+        ctx.ok(rule, fn, "knock-outs (replay)", f"{n} knock-out scripts (3 ways x {len(orders)} orders) on the stand-in model by the real methods: bounds zero iff the rule is false with the genes knocked out so far, flags, reaction.functional, solver bounds, restored on exit")
